@@ -1,6 +1,7 @@
 """C02 - AES, DES/TDEA, Serpent and Threefish encrypt exactly as standardized; sizes outside the
 standard are rejected; gmul is multiplication in GF(2^8)."""
 from mc.engine import Sub, InternalError
+from mc.checks.firstuse import firstuse_sub
 from mc.common import ramp, expander, single_bits
 from mc.checks import cipherfam as F
 from mc.refs import blockciphers as R, serpent as RS, skein as RT
@@ -369,8 +370,20 @@ def selftest():
         raise InternalError('reference self-test failed: %r' % (e,))
 
 
+PROP_ = 'C02'
+
+
+def fu_targets():
+    t = {}
+    for c in F.CIPHERS:
+        key, blk = F.fixed_keys(c)[2], F.fixed_blocks(c)[2]
+        t[c + ' enc'] = ((lambda c, key, blk: lambda: F.make(c, key).enc(blk))(c, key, blk), F.ref_enc(c, key, blk))
+        t[c + ' dec'] = ((lambda c, key, blk: lambda: F.make(c, key).dec(blk))(c, key, blk), F.ref_enc(c, key, blk, dec=True))
+    return t
+
+
 def subchecks():
-    return [
+    return [firstuse_sub(PROP_, fu_targets, every=2),
         Sub('gmul', pts_gmul, run_gmul, engine='D', bound='all 65536 byte pairs vs carry-less multiplication mod 0x11B'),
         Sub('tables', pts_tables, run_tables, engine='D', chunk=1,
             bound='AES S-box and inverse (256 entries, vs algebraic construction); DES S(n,x) all 8x64 cells; IP/IPinv/PC1/PC2/E/P on every single-bit input; subkey(k,r) r=0..15 on the 56 single-bit k; Serpent _S/_Sinv 8 boxes x 32 positions x 16 values'),
